@@ -404,6 +404,7 @@ def run(rep):
         "configurations": len(cfgs),
         "fixpoint_configurations": c.get("fixpoint_configs", 0),
         "capped_configurations": c.get("capped_configs", 0),
+        "state_capped_configurations": c.get("state_capped_configs", 0),
         "exhaustive": c.get("capped_configs", 0) == 0,
         "distinct_nontrivial": len(tally.sets.get("nontrivial", ())),
         "evaluations": c.get("transitions", 0),
